@@ -159,8 +159,20 @@ def check_object(obj, case) -> Optional[C.Failing]:
                     return C.Failing("strip:xml:element:full-reader-after-stripped", f"{type(obj).__name__} failsafe={failsafe}: {d[:200]}", case, d)
             return None
         # the file-level JSON API: the mode parameters select the reader (no decoder class passed)
-        from basyx.aas.adapter.json import read_aas_json_file, object_store_to_json
+        from basyx.aas.adapter.json import read_aas_json_file, object_store_to_json, write_aas_json_file
         st = model.DictObjectStore([obj])
+        # ... and the writer: the same document through a text stream, a binary stream and the string function, in both modes
+        for se in (False, True):
+            ref_doc = json.loads(object_store_to_json(st, stripped=se))
+            for carrier in ("text", "binary"):
+                buf2 = io.StringIO() if carrier == "text" else io.BytesIO()
+                write_aas_json_file(buf2, st, stripped=se)
+                raw = buf2.getvalue()
+                got_doc = json.loads(raw if isinstance(raw, str) else raw.decode("utf-8"))
+                if got_doc != ref_doc:
+                    d = c03._first_diff(got_doc, ref_doc)
+                    return C.Failing(f"strip:json:file-api:writer:{carrier}:{'stripped' if se else 'full'}",
+                                     f"write_aas_json_file({carrier} stream, stripped={se}) differs from object_store_to_json(stripped={se}): {str(d)[:160]}", case)
         for se in (False, True):
             doc = object_store_to_json(st, stripped=se)
             for sd in (False, True):
